@@ -1,45 +1,1085 @@
+//! C10 harness: address strings (zcash_address, f4jumble, CompactSize).
+//!
+//! Prints Coq `case` terms (coq/C10/Corr.v): the inputs, the BLAKE2b outputs the F4Jumble rounds
+//! need (computed here with blake2b_simd directly, not through the f4jumble crate), and the
+//! observed outcome of the public API.
+use std::convert::Infallible;
+use std::io::Cursor;
+
+use bech32::primitives::decode::UncheckedHrpstring;
+use bech32::primitives::iter::{ByteIterExt, Fe32IterExt};
+use bech32::{Bech32, Bech32m, Fe32, Hrp};
 use vcommon::*;
-use zcash_address::unified::{self, Container, Encoding, Receiver};
-use zcash_address::ZcashAddress;
+use zcash_address::unified::{self, Bech32mZip316, Container, Encoding, Fvk, Ivk, Receiver};
+use zcash_address::{ConversionError, ParseError, ToAddress, TryFromAddress, ZcashAddress};
+use zcash_encoding::CompactSize;
 use zcash_protocol::consensus::NetworkType;
-use bech32::{Bech32, Bech32m, Hrp};
+
+// ---------------------------------------------------------------------------------------------
+// printers
+
+fn cstr(s: &str) -> String {
+    if s.chars().all(|c| (' '..='~').contains(&c) && c != '"') {
+        format!("(str \"{}\"%string)", s)
+    } else {
+        list(s.chars().map(|c| format!("{}", c as u32)))
+    }
+}
+fn net(n: NetworkType) -> &'static str {
+    match n {
+        NetworkType::Main => "Main",
+        NetworkType::Test => "Test",
+        NetworkType::Regtest => "Regtest",
+    }
+}
+const NETS: [NetworkType; 3] = [NetworkType::Main, NetworkType::Test, NetworkType::Regtest];
+type It = (u32, Vec<u8>);
+fn items(v: &[It]) -> String {
+    list(v.iter().map(|(t, d)| format!("({}, {})", t, hn(d))))
+}
+fn uerr(e: &unified::ParseError) -> String {
+    use unified::ParseError::*;
+    match e {
+        BothP2phkAndP2sh => "(Err EBoth)".into(),
+        DuplicateTypecode(t) => format!("(Err (EDup {}))", u32::from(*t)),
+        InvalidTypecodeValue(v) => format!("(Err (EInvTc {}))", v),
+        InvalidEncoding(_) => "(Err EInvEnc)".into(),
+        InvalidTypecodeOrder => "(Err EOrder)".into(),
+        OnlyTransparent => "(Err EOnlyT)".into(),
+        NotUnified => "(Err ENotUnified)".into(),
+        UnknownPrefix(h) => format!("(Err (EUnkPrefix {}))", cstr(h)),
+    }
+}
+fn perr(e: &ParseError) -> String {
+    match e {
+        ParseError::InvalidEncoding => "(Err PInvEnc)".into(),
+        ParseError::NotZcash => "(Err PNotZcash)".into(),
+        ParseError::Unified(u) => {
+            let s = uerr(u);
+            format!("(Err (PUnified {}))", &s[5..s.len() - 1])
+        }
+    }
+}
+fn sres(r: &Option<String>) -> String {
+    match r {
+        None => PANIC.into(),
+        Some(s) => ok(cstr(s)),
+    }
+}
+
+// ---------------------------------------------------------------------------------------------
+// container kinds behind one interface
+
+#[derive(Clone, Copy, PartialEq, Eq, Debug)]
+enum K {
+    Addr,
+    Fvk,
+    Ivk,
+}
+const KS: [K; 3] = [K::Addr, K::Fvk, K::Ivk];
+impl K {
+    fn coq(self) -> &'static str {
+        match self {
+            K::Addr => "KAddr",
+            K::Fvk => "KFvk",
+            K::Ivk => "KIvk",
+        }
+    }
+    fn hrp(self, n: NetworkType) -> &'static str {
+        match (self, n) {
+            (K::Addr, NetworkType::Main) => "u",
+            (K::Addr, NetworkType::Test) => "utest",
+            (K::Addr, NetworkType::Regtest) => "uregtest",
+            (K::Fvk, NetworkType::Main) => "uview",
+            (K::Fvk, NetworkType::Test) => "uviewtest",
+            (K::Fvk, NetworkType::Regtest) => "uviewregtest",
+            (K::Ivk, NetworkType::Main) => "uivk",
+            (K::Ivk, NetworkType::Test) => "uivktest",
+            (K::Ivk, NetworkType::Regtest) => "uivkregtest",
+        }
+    }
+    /// length of the known item with this typecode, if it exists for this kind
+    fn known_len(self, tc: u32) -> Option<usize> {
+        match (self, tc) {
+            (K::Addr, 0) | (K::Addr, 1) => Some(20),
+            (K::Addr, 2) | (K::Addr, 3) => Some(43),
+            (K::Fvk, 0) | (K::Ivk, 0) => Some(65),
+            (K::Fvk, 2) => Some(128),
+            (K::Fvk, 3) => Some(96),
+            (K::Ivk, 2) | (K::Ivk, 3) => Some(64),
+            _ => None,
+        }
+    }
+}
+
+/// marker added to the printed typecode when an `Unknown` variant carries a known typecode
+/// (cannot come out of the parser; the model would then disagree)
+const BAD_UNKNOWN: u64 = 1 << 40;
+
+fn rcv_to_it(r: &Receiver) -> (u64, Vec<u8>) {
+    match r {
+        Receiver::P2pkh(d) => (0, d.to_vec()),
+        Receiver::P2sh(d) => (1, d.to_vec()),
+        Receiver::Sapling(d) => (2, d.to_vec()),
+        Receiver::Orchard(d) => (3, d.to_vec()),
+        Receiver::Unknown { typecode, data } => (*typecode as u64 + if *typecode < 4 { BAD_UNKNOWN } else { 0 }, data.clone()),
+    }
+}
+fn fvk_to_it(r: &Fvk) -> (u64, Vec<u8>) {
+    match r {
+        Fvk::P2pkh(d) => (0, d.to_vec()),
+        Fvk::Sapling(d) => (2, d.to_vec()),
+        Fvk::Orchard(d) => (3, d.to_vec()),
+        Fvk::Unknown { typecode, data } => (*typecode as u64 + if *typecode < 4 { BAD_UNKNOWN } else { 0 }, data.clone()),
+    }
+}
+fn ivk_to_it(r: &Ivk) -> (u64, Vec<u8>) {
+    match r {
+        Ivk::P2pkh(d) => (0, d.to_vec()),
+        Ivk::Sapling(d) => (2, d.to_vec()),
+        Ivk::Orchard(d) => (3, d.to_vec()),
+        Ivk::Unknown { typecode, data } => (*typecode as u64 + if *typecode < 4 { BAD_UNKNOWN } else { 0 }, data.clone()),
+    }
+}
+fn items64(v: &[(u64, Vec<u8>)]) -> String {
+    list(v.iter().map(|(t, d)| format!("({}, {})", t, hn(d))))
+}
+
+/// Build the typed item; known typecodes with the right length become the known variant,
+/// everything else an Unknown variant (callers keep unknown typecodes >= 4 in the valid streams).
+fn mk_rcv(it: &It) -> Receiver {
+    let (t, d) = it;
+    match (*t, d.len()) {
+        (0, 20) => Receiver::P2pkh(d[..].try_into().unwrap()),
+        (1, 20) => Receiver::P2sh(d[..].try_into().unwrap()),
+        (2, 43) => Receiver::Sapling(d[..].try_into().unwrap()),
+        (3, 43) => Receiver::Orchard(d[..].try_into().unwrap()),
+        _ => Receiver::Unknown { typecode: *t, data: d.clone() },
+    }
+}
+fn mk_fvk(it: &It) -> Fvk {
+    let (t, d) = it;
+    match (*t, d.len()) {
+        (0, 65) => Fvk::P2pkh(d[..].try_into().unwrap()),
+        (2, 128) => Fvk::Sapling(d[..].try_into().unwrap()),
+        (3, 96) => Fvk::Orchard(d[..].try_into().unwrap()),
+        _ => Fvk::Unknown { typecode: *t, data: d.clone() },
+    }
+}
+fn mk_ivk(it: &It) -> Ivk {
+    let (t, d) = it;
+    match (*t, d.len()) {
+        (0, 65) => Ivk::P2pkh(d[..].try_into().unwrap()),
+        (2, 64) => Ivk::Sapling(d[..].try_into().unwrap()),
+        (3, 64) => Ivk::Orchard(d[..].try_into().unwrap()),
+        _ => Ivk::Unknown { typecode: *t, data: d.clone() },
+    }
+}
+
+enum Cont {
+    A(unified::Address),
+    F(unified::Ufvk),
+    I(unified::Uivk),
+}
+impl Cont {
+    fn items(&self) -> Vec<(u64, Vec<u8>)> {
+        match self {
+            Cont::A(c) => c.items_as_parsed().iter().map(rcv_to_it).collect(),
+            Cont::F(c) => c.items_as_parsed().iter().map(fvk_to_it).collect(),
+            Cont::I(c) => c.items_as_parsed().iter().map(ivk_to_it).collect(),
+        }
+    }
+    fn encode(&self, n: NetworkType) -> Option<String> {
+        catch(|| match self {
+            Cont::A(c) => c.encode(&n),
+            Cont::F(c) => c.encode(&n),
+            Cont::I(c) => c.encode(&n),
+        })
+    }
+}
+fn try_from_items(k: K, its: &[It]) -> Option<Result<Cont, unified::ParseError>> {
+    catch(|| match k {
+        K::Addr => unified::Address::try_from_items(its.iter().map(mk_rcv).collect()).map(Cont::A),
+        K::Fvk => unified::Ufvk::try_from_items(its.iter().map(mk_fvk).collect()).map(Cont::F),
+        K::Ivk => unified::Uivk::try_from_items(its.iter().map(mk_ivk).collect()).map(Cont::I),
+    })
+}
+fn decode(k: K, s: &str) -> Option<Result<(NetworkType, Cont), unified::ParseError>> {
+    catch(|| match k {
+        K::Addr => unified::Address::decode(s).map(|(n, c)| (n, Cont::A(c))),
+        K::Fvk => unified::Ufvk::decode(s).map(|(n, c)| (n, Cont::F(c))),
+        K::Ivk => unified::Uivk::decode(s).map(|(n, c)| (n, Cont::I(c))),
+    })
+}
+fn ures(r: &Option<Result<(NetworkType, Cont), unified::ParseError>>) -> String {
+    match r {
+        None => PANIC.into(),
+        Some(Ok((n, c))) => ok(format!("({}, {})", net(*n), items64(&c.items()))),
+        Some(Err(e)) => uerr(e),
+    }
+}
+
+// ---------------------------------------------------------------------------------------------
+// F4Jumble round functions straight from BLAKE2b, and the table of the values used
+
+fn h_pers(i: u8) -> [u8; 16] {
+    let mut p = [0u8; 16];
+    p[..13].copy_from_slice(b"UA_F4Jumble_H");
+    p[13] = i;
+    p
+}
+fn g_pers(i: u8, j: u16) -> [u8; 16] {
+    let mut p = [0u8; 16];
+    p[..13].copy_from_slice(b"UA_F4Jumble_G");
+    p[13] = i;
+    p[14] = (j & 0xff) as u8;
+    p[15] = (j >> 8) as u8;
+    p
+}
+struct Tbl(Vec<String>);
+impl Tbl {
+    fn new() -> Self {
+        Tbl(vec![])
+    }
+    fn coq(&self) -> String {
+        list(self.0.iter().cloned())
+    }
+    fn push(&mut self, e: String) {
+        if !self.0.contains(&e) {
+            self.0.push(e);
+        }
+    }
+    fn h(&mut self, i: u8, l: &mut [u8], r: &[u8]) {
+        let hash = blake2b_simd::Params::new().hash_length(l.len()).personal(&h_pers(i)).hash(r);
+        self.push(format!("(0, {}, {}, {}, {})", i, l.len(), hn(r), hn(hash.as_bytes())));
+        for (a, b) in l.iter_mut().zip(hash.as_bytes()) {
+            *a ^= b;
+        }
+    }
+    /// one entry per round: the outputs for j = 0, 1, .. concatenated
+    fn g(&mut self, i: u8, l: &[u8], r: &mut [u8]) {
+        let mut all = vec![];
+        for (j, chunk) in r.chunks_mut(64).enumerate() {
+            let hash = blake2b_simd::Params::new().hash_length(64).personal(&g_pers(i, j as u16)).hash(l);
+            all.extend_from_slice(hash.as_bytes());
+            for (a, b) in chunk.iter_mut().zip(hash.as_bytes()) {
+                *a ^= b;
+            }
+        }
+        self.push(format!("(1, {}, 0, {}, {})", i, hn(l), hn(&all)));
+    }
+    /// the Feistel network of ZIP 316 on a message of valid length; records every hash used
+    fn jumble(&mut self, m: &[u8], inverse: bool) -> Option<Vec<u8>> {
+        if m.len() < 48 || m.len() > 4194368 {
+            return None;
+        }
+        let ll = std::cmp::min(64, m.len() / 2);
+        let mut l = m[..ll].to_vec();
+        let mut r = m[ll..].to_vec();
+        if !inverse {
+            self.g(0, &l, &mut r);
+            self.h(0, &mut l, &r);
+            self.g(1, &l, &mut r);
+            self.h(1, &mut l, &r);
+        } else {
+            self.h(1, &mut l, &r);
+            self.g(1, &l, &mut r);
+            self.h(0, &mut l, &r);
+            self.g(0, &l, &mut r);
+        }
+        l.extend_from_slice(&r);
+        Some(l)
+    }
+    /// hashes needed to parse `s` as a unified container (if it gets as far as F4Jumble^-1)
+    fn for_string(&mut self, s: &str) {
+        let s = s.trim();
+        if let Ok(u) = UncheckedHrpstring::new(s) {
+            if u.has_valid_checksum::<Bech32mZip316>() {
+                let c = u.remove_checksum::<Bech32mZip316>();
+                let bytes: Vec<u8> = c.byte_iter().collect();
+                self.jumble(&bytes, true);
+            }
+        }
+    }
+}
+
+fn cs_bytes(n: u64) -> Vec<u8> {
+    if n < 253 {
+        vec![n as u8]
+    } else if n <= 0xffff {
+        let mut v = vec![253];
+        v.extend_from_slice(&(n as u16).to_le_bytes());
+        v
+    } else if n <= 0xffff_ffff {
+        let mut v = vec![254];
+        v.extend_from_slice(&(n as u32).to_le_bytes());
+        v
+    } else {
+        let mut v = vec![255];
+        v.extend_from_slice(&n.to_le_bytes());
+        v
+    }
+}
+fn raw_items(its: &[It]) -> Vec<u8> {
+    let mut v = vec![];
+    for (t, d) in its {
+        v.extend(cs_bytes(*t as u64));
+        v.extend(cs_bytes(d.len() as u64));
+        v.extend_from_slice(d);
+    }
+    v
+}
+fn pad(hrp: &str) -> Vec<u8> {
+    let mut p = hrp.as_bytes().to_vec();
+    p.resize(16, 0);
+    p
+}
+
+// ---------------------------------------------------------------------------------------------
+// ZcashAddress observation
+
+struct Obs(String);
+impl TryFromAddress for Obs {
+    type Error = Infallible;
+    fn try_from_sprout(n: NetworkType, d: [u8; 64]) -> Result<Self, ConversionError<Infallible>> {
+        Ok(Obs(format!("(ARaw {} Sprout {})", net(n), hn(&d))))
+    }
+    fn try_from_sapling(n: NetworkType, d: [u8; 43]) -> Result<Self, ConversionError<Infallible>> {
+        Ok(Obs(format!("(ARaw {} Sapling {})", net(n), hn(&d))))
+    }
+    fn try_from_unified(n: NetworkType, d: unified::Address) -> Result<Self, ConversionError<Infallible>> {
+        Ok(Obs(format!("(AUni {} {})", net(n), items64(&Cont::A(d).items()))))
+    }
+    fn try_from_transparent_p2pkh(n: NetworkType, d: [u8; 20]) -> Result<Self, ConversionError<Infallible>> {
+        Ok(Obs(format!("(ARaw {} P2pkh {})", net(n), hn(&d))))
+    }
+    fn try_from_transparent_p2sh(n: NetworkType, d: [u8; 20]) -> Result<Self, ConversionError<Infallible>> {
+        Ok(Obs(format!("(ARaw {} P2sh {})", net(n), hn(&d))))
+    }
+    fn try_from_tex(n: NetworkType, d: [u8; 20]) -> Result<Self, ConversionError<Infallible>> {
+        Ok(Obs(format!("(ARaw {} Tex {})", net(n), hn(&d))))
+    }
+}
+fn obs(a: &ZcashAddress) -> String {
+    a.clone().convert::<Obs>().map(|o| o.0).unwrap_or_else(|_| "(ARaw Main Sprout [])".into())
+}
+fn ares(r: &Option<Result<ZcashAddress, ParseError>>) -> String {
+    match r {
+        None => PANIC.into(),
+        Some(Ok(a)) => ok(obs(a)),
+        Some(Err(e)) => perr(e),
+    }
+}
+
+// ---------------------------------------------------------------------------------------------
+// case emitters
+
+struct Ctx {
+    n: usize,
+    ok_parse: usize,
+    err_parse: usize,
+    classes: std::collections::BTreeMap<&'static str, usize>,
+}
+impl Ctx {
+    fn bump(&mut self, k: &'static str) {
+        *self.classes.entry(k).or_insert(0) += 1;
+        self.n += 1;
+    }
+}
+
+fn emit_jumble(cx: &mut Ctx, m: &[u8], inverse: bool) {
+    let mut t = Tbl::new();
+    let o = catch(|| if inverse { f4jumble::f4jumble_inv(m) } else { f4jumble::f4jumble(m) });
+    let (os, back) = match &o {
+        None => (PANIC.to_string(), "None".to_string()),
+        Some(Err(_)) => ("(Err tt)".to_string(), "None".to_string()),
+        Some(Ok(y)) => {
+            t.jumble(m, inverse);
+            t.jumble(y, !inverse);
+            let b = catch(|| if inverse { f4jumble::f4jumble(y) } else { f4jumble::f4jumble_inv(y) });
+            let bs = match b {
+                None => PANIC.to_string(),
+                Some(Err(_)) => "(Err tt)".to_string(),
+                Some(Ok(z)) => ok(hn(&z)),
+            };
+            (ok(hn(y)), format!("(Some {})", bs))
+        }
+    };
+    case(format!("{} {} {} {} {}", if inverse { "CJumbleInv" } else { "CJumble" }, hn(m), t.coq(), os, back));
+    cx.bump(if inverse { "jumble_inv" } else { "jumble" });
+}
+
+fn emit_cs_read(cx: &mut Ctx, b: &[u8]) {
+    let r = catch(|| {
+        let mut c = Cursor::new(b);
+        CompactSize::read(&mut c).map(|v| (v, c.position()))
+    });
+    let o = match r {
+        None => PANIC.to_string(),
+        Some(Ok((v, p))) => ok(format!("({}, {})", v, p)),
+        Some(Err(e)) => {
+            if e.kind() == std::io::ErrorKind::UnexpectedEof {
+                err("CsEof")
+            } else if e.to_string().contains("non-canonical") {
+                err("CsNonCanonical")
+            } else {
+                err("CsTooLarge")
+            }
+        }
+    };
+    case(format!("CCsRead {} {}", hn(b), o));
+    cx.bump("cs_read");
+}
+fn emit_cs_write(cx: &mut Ctx, n: u64) {
+    let r = catch(|| {
+        let mut v = vec![];
+        CompactSize::write(&mut v, n as usize).map(|_| v)
+    });
+    let o = match r {
+        None => PANIC.to_string(),
+        Some(Ok(v)) => ok(hn(&v)),
+        Some(Err(_)) => "(Err tt)".to_string(),
+    };
+    case(format!("CCsWrite {} {}", n, o));
+    cx.bump("cs_write");
+}
+
+/// try_from_items, and when accepted: encode for `n`, decode back
+fn emit_container(cx: &mut Ctx, k: K, its: &[It], n: NetworkType, strings: &mut Vec<(K, String)>) {
+    let r = try_from_items(k, its);
+    let o = match &r {
+        None => PANIC.to_string(),
+        Some(Ok(c)) => ok(items64(&c.items())),
+        Some(Err(e)) => uerr(e),
+    };
+    case(format!("CFromItems {} {} {}", k.coq(), items(its), o));
+    cx.bump("from_items");
+    if let Some(Ok(c)) = r {
+        emit_uenc(cx, k, &c, n, strings);
+    }
+}
+fn emit_uenc(cx: &mut Ctx, k: K, c: &Cont, n: NetworkType, strings: &mut Vec<(K, String)>) {
+    let its = c.items();
+    let its32: Vec<It> = its.iter().map(|(t, d)| (*t as u32, d.clone())).collect();
+    let mut t = Tbl::new();
+    let mut raw = raw_items(&its32);
+    raw.extend(pad(k.hrp(n)));
+    let jum = t.jumble(&raw, false);
+    let s = c.encode(n);
+    let back = match &s {
+        None => "None".to_string(),
+        Some(s) => {
+            if let Some(j) = &jum {
+                t.jumble(j, true);
+            }
+            strings.push((k, s.clone()));
+            format!("(Some {})", ures(&decode(k, s)))
+        }
+    };
+    case(format!("CUEnc {} {} {} {} {} {}", k.coq(), net(n), items64(&its), t.coq(), sres(&s), back));
+    cx.bump("uenc");
+}
+fn emit_udec(cx: &mut Ctx, k: K, s: &str) {
+    let mut t = Tbl::new();
+    t.for_string(s);
+    let r = decode(k, s);
+    let re = match &r {
+        Some(Ok((n, c))) => {
+            // forward table for the re-encoding
+            let its: Vec<It> = c.items().iter().map(|(t, d)| (*t as u32, d.clone())).collect();
+            let mut raw = raw_items(&its);
+            raw.extend(pad(k.hrp(*n)));
+            t.jumble(&raw, false);
+            format!("(Some {})", sres(&c.encode(*n)))
+        }
+        _ => "None".to_string(),
+    };
+    case(format!("CUDec {} {} {} {} {}", k.coq(), cstr(s), t.coq(), ures(&r), re));
+    cx.bump("udec");
+}
+fn emit_parse(cx: &mut Ctx, s: &str) {
+    let mut t = Tbl::new();
+    t.for_string(s);
+    let r = catch(|| ZcashAddress::try_from_encoded(s));
+    let re = match &r {
+        Some(Ok(a)) => {
+            cx.ok_parse += 1;
+            if let Ok((n, ua)) = unified::Address::decode(s.trim()) {
+                let its: Vec<It> = Cont::A(ua).items().iter().map(|(t, d)| (*t as u32, d.clone())).collect();
+                let mut raw = raw_items(&its);
+                raw.extend(pad(K::Addr.hrp(n)));
+                t.jumble(&raw, false);
+            }
+            format!("(Some {})", sres(&catch(|| a.encode())))
+        }
+        _ => {
+            cx.err_parse += 1;
+            "None".to_string()
+        }
+    };
+    case(format!("CParse {} {} {} {}", cstr(s), t.coq(), ares(&r), re));
+    cx.bump("parse");
+}
+fn emit_enc(cx: &mut Ctx, a: &ZcashAddress, ua_items: Option<(NetworkType, Vec<It>)>, strings: &mut Vec<String>) {
+    let mut t = Tbl::new();
+    if let Some((n, its)) = &ua_items {
+        let mut raw = raw_items(its);
+        raw.extend(pad(K::Addr.hrp(*n)));
+        if let Some(j) = t.jumble(&raw, false) {
+            t.jumble(&j, true);
+        }
+    }
+    let s = catch(|| a.encode());
+    let back = match &s {
+        None => "None".to_string(),
+        Some(s) => {
+            strings.push(s.clone());
+            format!("(Some {})", ares(&catch(|| ZcashAddress::try_from_encoded(s))))
+        }
+    };
+    case(format!("CEnc {} {} {} {}", obs(a), t.coq(), sres(&s), back));
+    cx.bump("enc");
+}
+
+// ---------------------------------------------------------------------------------------------
+// generators
+
+const UNK_TCS: [u32; 12] = [4, 5, 6, 0xfc, 0xfd, 0xfe, 0xff, 0xffff, 0x10000, 0xfffa, 0x01ff_ffff, 0x0200_0000];
+
+fn rand_unknown(r: &mut Rng) -> It {
+    let t = if r.chance(3, 4) { *r.pick(&UNK_TCS) } else { r.range(4, 0x0200_0000) as u32 };
+    let l = match r.below(6) {
+        0 => 0,
+        1 => r.range(1, 8) as usize,
+        2 => r.range(250, 256) as usize,
+        _ => r.range(9, 90) as usize,
+    };
+    (t, r.bytes(l))
+}
+/// a well-formed item set for kind k (ascending, composition rules satisfied)
+fn rand_valid_items(r: &mut Rng, k: K) -> Vec<It> {
+    loop {
+        let mut v: Vec<It> = vec![];
+        let transparent = r.below(4);
+        match (k, transparent) {
+            (_, 0) => v.push((0, r.bytes(k.known_len(0).unwrap()))),
+            (K::Addr, 1) => v.push((1, r.bytes(20))),
+            _ => {}
+        }
+        if r.chance(2, 3) {
+            v.push((2, r.bytes(k.known_len(2).unwrap())));
+        }
+        if r.chance(2, 3) {
+            v.push((3, r.bytes(k.known_len(3).unwrap())));
+        }
+        let nu = match r.below(5) {
+            0 => 1,
+            1 => 2,
+            _ => 0,
+        };
+        for _ in 0..nu {
+            v.push(rand_unknown(r));
+        }
+        v.sort();
+        v.dedup_by_key(|x| x.0);
+        if v.iter().any(|x| x.0 >= 2) {
+            return v;
+        }
+    }
+}
+fn shuffle<T>(r: &mut Rng, v: &mut Vec<T>) {
+    for i in (1..v.len()).rev() {
+        let j = r.below(i as u64 + 1) as usize;
+        v.swap(i, j);
+    }
+}
+
+fn bech32_string<Ck: bech32::Checksum>(hrp: &str, fes: &[Fe32]) -> String {
+    let h = Hrp::parse_unchecked(hrp);
+    fes.iter().copied().with_checksum::<Ck>(&h).chars().collect()
+}
+fn to_fes(b: &[u8]) -> Vec<Fe32> {
+    b.iter().copied().bytes_to_fes().collect()
+}
+fn fe(x: u64) -> Fe32 {
+    Fe32::try_from(x as u8 & 31).unwrap()
+}
+
+/// raw (un-jumbled) container encodings that violate exactly one rule, or none
+fn raw_variants(r: &mut Rng, k: K, hrp: &str) -> Vec<Vec<u8>> {
+    let its = rand_valid_items(r, k);
+    let good = raw_items(&its);
+    let p = pad(hrp);
+    let with_pad = |body: &[u8], p: &[u8]| {
+        let mut v = body.to_vec();
+        v.extend_from_slice(p);
+        v
+    };
+    let mut out = vec![with_pad(&good, &p)];
+    // permuted
+    if its.len() > 1 {
+        let mut q = its.clone();
+        q.swap(0, its.len() - 1);
+        out.push(with_pad(&raw_items(&q), &p));
+    }
+    // duplicated item
+    {
+        let mut q = its.clone();
+        let i = r.below(its.len() as u64) as usize;
+        q.insert(i, its[i].clone());
+        out.push(with_pad(&raw_items(&q), &p));
+    }
+    // both P2PKH and P2SH / P2SH in a key container
+    {
+        let mut q: Vec<It> = its.iter().filter(|x| x.0 > 1).cloned().collect();
+        q.insert(0, (1, r.bytes(20)));
+        q.insert(0, (0, r.bytes(k.known_len(0).unwrap())));
+        out.push(with_pad(&raw_items(&q), &p));
+        let mut q2: Vec<It> = its.iter().filter(|x| x.0 > 1).cloned().collect();
+        q2.insert(0, (1, r.bytes(20)));
+        out.push(with_pad(&raw_items(&q2), &p));
+    }
+    // only transparent, padded with zeros up to a valid length by a long enough item? (only P2PKH is 22/67 bytes)
+    {
+        let q: Vec<It> = vec![(0, r.bytes(k.known_len(0).unwrap()))];
+        let mut body = raw_items(&q);
+        if k == K::Addr {
+            let q2: Vec<It> = vec![(1, r.bytes(20))];
+            if r.bool() {
+                body = raw_items(&q2);
+            }
+        }
+        out.push(with_pad(&body, &p));
+    }
+    // wrong padding: other hrp, a flipped byte, non-zero tail
+    {
+        let mut p2 = p.clone();
+        let i = r.below(16) as usize;
+        p2[i] ^= 1 << r.below(8);
+        out.push(with_pad(&good, &p2));
+        out.push(with_pad(&good, &pad(if hrp == "u" { "utest" } else { "u" })));
+    }
+    // non-canonical CompactSize for the first typecode or length
+    {
+        let (t, d) = &its[0];
+        let mut v = vec![253, *t as u8, 0];
+        if *t >= 253 {
+            v = vec![254];
+            v.extend_from_slice(&(*t).to_le_bytes());
+        }
+        if *t >= 0x10000 {
+            v = vec![255];
+            v.extend_from_slice(&(*t as u64).to_le_bytes());
+        }
+        v.extend(cs_bytes(d.len() as u64));
+        v.extend_from_slice(d);
+        v.extend(raw_items(&its[1..]));
+        out.push(with_pad(&v, &p));
+        let mut v = cs_bytes(*t as u64);
+        v.push(253);
+        v.extend_from_slice(&(d.len() as u16).to_le_bytes());
+        if d.len() >= 253 {
+            v.pop();
+            v.pop();
+            v.pop();
+            v.push(254);
+            v.extend_from_slice(&(d.len() as u32).to_le_bytes());
+        }
+        v.extend_from_slice(d);
+        v.extend(raw_items(&its[1..]));
+        out.push(with_pad(&v, &p));
+    }
+    // truncated last item / length beyond the end / huge length
+    {
+        let mut v = good.clone();
+        let cut = r.range(1, std::cmp::min(10, v.len() as u64 - 1)) as usize;
+        v.truncate(v.len() - cut);
+        out.push(with_pad(&v, &p));
+        let mut v = raw_items(&its[..its.len() - 1]);
+        v.extend(cs_bytes(its[its.len() - 1].0 as u64));
+        v.extend(cs_bytes(*r.pick(&[0x0200_0000u64, 0x0200_0001, 0xffff_ffff, u64::MAX, 300])));
+        v.extend_from_slice(&its[its.len() - 1].1);
+        out.push(with_pad(&v, &p));
+        // lone typecode byte at the end
+        let mut v = good.clone();
+        v.push(r.below(256) as u8);
+        out.push(with_pad(&v, &p));
+    }
+    // typecode above MAX_COMPACT_SIZE
+    {
+        let mut v = good.clone();
+        v.push(254);
+        v.extend_from_slice(&r.pick(&[0x0200_0001u32, 0xffff_ffff]).to_le_bytes());
+        v.push(1);
+        v.push(7);
+        out.push(with_pad(&v, &p));
+    }
+    // wrong length for a known item
+    {
+        let mut q = its.clone();
+        let i = r.below(q.len() as u64) as usize;
+        if q[i].0 < 4 {
+            if r.bool() {
+                q[i].1.push(0)
+            } else {
+                q[i].1.pop();
+            }
+        } else {
+            let ql = r.range(0, 60) as usize;
+            q[i] = (2, r.bytes(ql));
+            q.sort();
+        }
+        out.push(with_pad(&raw_items(&q), &p));
+    }
+    // empty container (padding only, padded to 48 with an unknown item is not "empty": use 32 zero bytes + pad)
+    out.push(with_pad(&[], &p));
+    out
+}
+
+fn mutate_char(r: &mut Rng, s: &str) -> String {
+    let mut c: Vec<char> = s.chars().collect();
+    if c.is_empty() {
+        return "1".into();
+    }
+    let i = r.below(c.len() as u64) as usize;
+    match r.below(7) {
+        0 => c[i] = *r.pick(&['q', 'p', 'z', 'r', 'y', '9', 'x', '8', 'g', 'f', '2', 't', 'v', 'd', 'w', '0', 's', '3', 'j', 'n', '5', '4', 'k', 'h', 'c', 'e', '6', 'm', 'u', 'a', '7', 'l']),
+        1 => c[i] = *r.pick(&['b', 'i', 'o', '1', 'O', 'I', 'l', '0', ' ', '-', '_', 'é', '\u{2003}', '\u{0}', 'Z', 'Q']),
+        2 => {
+            c.remove(i);
+        }
+        3 => c.insert(i, *r.pick(&['q', 'a', '1', 'B', '2'])),
+        4 => c[i] = c[i].to_ascii_uppercase(),
+        5 => c.swap(i, r.below(s.chars().count() as u64) as usize),
+        _ => c.truncate(i),
+    }
+    c.into_iter().collect()
+}
 
 fn main() {
+    let a = args();
     quiet_panics();
-    // 1. padding bits
-    let data = [0u8; 43];
-    let hrp = Hrp::parse("zs").unwrap();
-    let good = bech32::encode::<Bech32>(hrp, &data).unwrap();
-    println!("good {} -> {:?}", good, ZcashAddress::try_from_encoded(&good).map(|a| a.encode()));
-    // build fes manually: 69 fes with last bit set
-    use bech32::primitives::iter::{ByteIterExt, Fe32IterExt};
-    use bech32::Fe32;
-    let mut fes: Vec<Fe32> = data.iter().copied().bytes_to_fes().collect();
-    println!("nfes {}", fes.len());
-    let l = fes.len();
-    fes[l - 1] = Fe32::try_from(1u8).unwrap();
-    let s: String = fes.iter().copied().with_checksum::<Bech32>(&hrp).chars().collect();
-    println!("padbit {} -> {:?}", s, ZcashAddress::try_from_encoded(&s).map(|a| a.encode()));
-    fes.push(Fe32::try_from(21u8).unwrap());
-    let s: String = fes.iter().copied().with_checksum::<Bech32>(&hrp).chars().collect();
-    println!("extra fe {} -> {:?}", s, ZcashAddress::try_from_encoded(&s).map(|a| a.encode()));
-    // TEX with an extra fe
-    let hrp = Hrp::parse("tex").unwrap();
-    let mut fes: Vec<Fe32> = [7u8; 20].iter().copied().bytes_to_fes().collect();
-    fes.push(Fe32::try_from(9u8).unwrap());
-    let s: String = fes.iter().copied().with_checksum::<Bech32m>(&hrp).chars().collect();
-    println!("tex extra {} -> {:?}", s, ZcashAddress::try_from_encoded(&s).map(|a| a.encode()));
-    // 2. encode panic
-    let r = catch(|| unified::Address::try_from_items(vec![Receiver::Unknown { typecode: 0xffff, data: vec![1, 2, 3] }]).map(|a| a.encode(&NetworkType::Main)));
-    println!("tiny unknown-only UA: {:?}", r);
-    let r = catch(|| unified::Address::try_from_items(vec![Receiver::Unknown { typecode: 4, data: vec![0; 29] }]).map(|a| a.encode(&NetworkType::Main)));
-    println!("47: {:?}", r);
-    let r = catch(|| unified::Address::try_from_items(vec![Receiver::Unknown { typecode: 4, data: vec![0; 30] }]).map(|a| a.encode(&NetworkType::Main)));
-    println!("48: {:?}", r.map(|x| x.map(|s| s.len())));
-    let r = catch(|| unified::Address::try_from_items(vec![Receiver::Unknown { typecode: 4, data: vec![0; 2_700_000] }]).map(|a| a.encode(&NetworkType::Main)));
-    println!("2.7MB: {:?}", r.map(|x| x.map(|s| s.len())));
-    let r = catch(|| unified::Address::try_from_items(vec![Receiver::Sapling([0;43]), Receiver::Unknown { typecode: 0x02000001, data: vec![0; 3] }]).map(|a| { let s = a.encode(&NetworkType::Main); (unified::Address::decode(&s).map(|x| x.1 == a)) }));
-    println!("big typecode: {:?}", r);
-    let r = catch(|| unified::Address::try_from_items(vec![Receiver::Unknown { typecode: 2, data: vec![0; 43] }]).map(|a| { let s = a.encode(&NetworkType::Main); (unified::Address::decode(&s).map(|x| x.1 == a)) }));
-    println!("unknown with known typecode: {:?}", r);
+    let mut r = Rng::new(a.seed, 10);
+    let mut cx = Ctx { n: 0, ok_parse: 0, err_parse: 0, classes: Default::default() };
+    let scale = a.budget(1, 8);
+
+    // ---- F4Jumble on every length class -------------------------------------------------
+    let mut lens: Vec<usize> = vec![0, 1, 16, 47, 48, 49, 50, 63, 64, 65, 95, 96, 97, 126, 127, 128, 129, 130, 191, 192, 193, 255, 256, 257, 320, 321, 513];
+    for _ in 0..(24 * scale) {
+        lens.push(r.range(48, 330) as usize);
+    }
+    if a.thorough() || a.search {
+        lens.extend([4096, 16383, 16384, 70000]);
+    }
+    let mut jl = std::collections::BTreeMap::new();
+    for l in &lens {
+        for inv in [false, true] {
+            let m = match r.below(4) {
+                0 => vec![0u8; *l],
+                1 => vec![0xffu8; *l],
+                _ => r.bytes(*l),
+            };
+            emit_jumble(&mut cx, &m, inv);
+        }
+        *jl.entry(if *l < 48 { "lt48" } else if *l <= 128 { "48..128" } else if *l <= 192 { "129..192" } else { "gt192" }).or_insert(0) += 2;
+    }
+
+    // ---- CompactSize ---------------------------------------------------------------------
+    let vals: Vec<u64> = vec![0, 1, 127, 252, 253, 254, 255, 256, 0xfffe, 0xffff, 0x10000, 0x10001, 0x01ff_ffff, 0x0200_0000, 0x0200_0001,
+        0xffff_fffe, 0xffff_ffff, 0x1_0000_0000, 0x1_0000_0001, u64::MAX - 1, u64::MAX];
+    for v in &vals {
+        emit_cs_write(&mut cx, *v);
+        let mut b = cs_bytes(*v);
+        emit_cs_read(&mut cx, &b);
+        b.extend(r.bytes(3));
+        emit_cs_read(&mut cx, &b);
+        // every other width (non-canonical when wider than needed)
+        for (flag, w) in [(253u8, 2usize), (254, 4), (255, 8)] {
+            let mut nb = vec![flag];
+            nb.extend_from_slice(&v.to_le_bytes()[..w]);
+            emit_cs_read(&mut cx, &nb);
+            nb.pop();
+            emit_cs_read(&mut cx, &nb); // truncated
+        }
+    }
+    emit_cs_read(&mut cx, &[]);
+    for _ in 0..(150 * scale) {
+        let v = match r.below(5) {
+            0 => r.below(300),
+            1 => r.range(0xff00, 0x10100),
+            2 => r.range(0x01ff_ff00, 0x0200_0100),
+            3 => r.u64() >> r.below(64),
+            _ => r.range(0xffff_ff00, 0x1_0000_0100),
+        };
+        emit_cs_write(&mut cx, v);
+        let l = r.range(0, 10) as usize;
+        emit_cs_read(&mut cx, &r.bytes(l));
+        let mut b = cs_bytes(v);
+        let bl = r.below(3) as usize;
+        b.extend(r.bytes(bl));
+        emit_cs_read(&mut cx, &b);
+    }
+
+    // ---- containers: try_from_items / encode / decode ----------------------------------------
+    let mut ustrings: Vec<(K, String)> = vec![];
+    // known finding witness (always first): a container with one short unknown item
+    emit_container(&mut cx, K::Addr, &[(0xffff, vec![1, 2, 3])], NetworkType::Main, &mut ustrings);
+    for k in KS {
+        // boundary of the encodable class: padded raw encoding of 47 / 48 bytes
+        emit_container(&mut cx, k, &[(4, vec![0; 29])], NetworkType::Test, &mut ustrings);
+        emit_container(&mut cx, k, &[(4, vec![0; 30])], NetworkType::Regtest, &mut ustrings);
+        emit_container(&mut cx, k, &[], NetworkType::Main, &mut ustrings);
+        for _ in 0..(70 * scale) {
+            let mut its = rand_valid_items(&mut r, k);
+            match r.below(10) {
+                0 => {
+                    // duplicate typecode (same or different data)
+                    let i = r.below(its.len() as u64) as usize;
+                    let mut d = its[i].clone();
+                    if r.bool() && d.0 >= 4 {
+                        d.1 = r.bytes(d.1.len());
+                    }
+                    its.push(d);
+                }
+                1 => {
+                    its.retain(|x| x.0 > 1);
+                    its.push((0, r.bytes(k.known_len(0).unwrap())));
+                    if k == K::Addr {
+                        its.push((1, r.bytes(20)));
+                    }
+                }
+                2 => its.retain(|x| x.0 < 2),
+                _ => {}
+            }
+            shuffle(&mut r, &mut its);
+            let n = *r.pick(&NETS);
+            emit_container(&mut cx, k, &its, n, &mut ustrings);
+        }
+    }
+    // decode: valid strings of every kind against every decoder kind, and raw-level violations
+    let mut dec_inputs: Vec<(K, String)> = vec![];
+    for (k, s) in ustrings.iter().take(90 * scale) {
+        dec_inputs.push((*k, s.clone()));
+        if r.chance(1, 6) {
+            dec_inputs.push((*r.pick(&KS), s.clone()));
+        }
+        if r.chance(1, 4) {
+            dec_inputs.push((*k, mutate_char(&mut r, s)));
+        }
+        if r.chance(1, 10) {
+            dec_inputs.push((*k, s.to_ascii_uppercase()));
+        }
+        if r.chance(1, 10) {
+            dec_inputs.push((*k, format!(" {}", s)));
+        }
+    }
+    for k in KS {
+        for _ in 0..(7 * scale) {
+            let n = *r.pick(&NETS);
+            let hrp = k.hrp(n);
+            for raw in raw_variants(&mut r, k, hrp) {
+                // jumble with the crate when the length allows it, else encode the raw bytes as they are
+                let j = f4jumble::f4jumble(&raw).unwrap_or(raw.clone());
+                let fes = to_fes(&j);
+                dec_inputs.push((k, bech32_string::<Bech32mZip316>(hrp, &fes)));
+                if r.chance(1, 12) {
+                    dec_inputs.push((k, bech32_string::<Bech32>(hrp, &fes))); // other checksum variant
+                }
+                if r.chance(1, 12) {
+                    dec_inputs.push((k, bech32_string::<Bech32mZip316>(*r.pick(&["ux", "v", "uview1", "UTEST", "tex"]), &fes)));
+                }
+                if r.chance(1, 12) {
+                    // not jumbled at all
+                    dec_inputs.push((k, bech32_string::<Bech32mZip316>(hrp, &to_fes(&raw))));
+                }
+                if (fes.len() * 5) % 8 == 0 && r.chance(1, 2) {
+                    // exactly five zero padding bits: one whole surplus character
+                    let mut f2 = fes.clone();
+                    f2.push(fe(0));
+                    dec_inputs.push((k, bech32_string::<Bech32mZip316>(hrp, &f2)));
+                }
+                if r.chance(1, 8) {
+                    // non-zero padding bits / an extra data character
+                    let mut f2 = fes.clone();
+                    let pb = (f2.len() * 5) % 8;
+                    if pb > 0 && r.bool() {
+                        let l = f2.len() - 1;
+                        f2[l] = fe(f2[l].to_u8() as u64 | (1 << r.below(pb as u64)));
+                    } else {
+                        f2.push(fe(r.below(32)));
+                    }
+                    dec_inputs.push((k, bech32_string::<Bech32mZip316>(hrp, &f2)));
+                }
+            }
+        }
+    }
+    for (k, s) in &dec_inputs {
+        emit_udec(&mut cx, *k, s);
+    }
+
+    // ---- ZcashAddress: constructors, encode, parse ---------------------------------------------
+    let mut strings: Vec<String> = vec![];
+    let reps = 12 * scale;
+    for n in NETS {
+        for rep in 0..reps {
+            let fill = |r: &mut Rng, l: usize| match rep {
+                0 => vec![0u8; l],
+                1 => vec![0xff; l],
+                _ => r.bytes(l),
+            };
+            let d64: [u8; 64] = fill(&mut r, 64).try_into().unwrap();
+            let d43: [u8; 43] = fill(&mut r, 43).try_into().unwrap();
+            let d20: [u8; 20] = fill(&mut r, 20).try_into().unwrap();
+            let vs: Vec<(&str, Vec<u8>, ZcashAddress)> = vec![
+                ("Sprout", d64.to_vec(), ZcashAddress::from_sprout(n, d64)),
+                ("Sapling", d43.to_vec(), ZcashAddress::from_sapling(n, d43)),
+                ("P2pkh", d20.to_vec(), ZcashAddress::from_transparent_p2pkh(n, d20)),
+                ("P2sh", d20.to_vec(), ZcashAddress::from_transparent_p2sh(n, d20)),
+                ("Tex", d20.to_vec(), ZcashAddress::from_tex(n, d20)),
+            ];
+            for (k, d, za) in vs {
+                case(format!("CCtor {} {} {} {}", net(n), k, hn(&d), obs(&za)));
+                cx.bump("ctor");
+                emit_enc(&mut cx, &za, None, &mut strings);
+            }
+        }
+        for _ in 0..(30 * scale) {
+            let its = rand_valid_items(&mut r, K::Addr);
+            if let Some(Ok(Cont::A(ua))) = try_from_items(K::Addr, &its) {
+                let za = ZcashAddress::from_unified(n, ua);
+                emit_enc(&mut cx, &za, Some((n, its.clone())), &mut strings);
+            }
+        }
+    }
+    // known-finding witness through the top-level encoder as well
+    if let Some(Ok(Cont::A(ua))) = try_from_items(K::Addr, &[(5, vec![9; 10])]) {
+        let za = ZcashAddress::from_unified(NetworkType::Main, ua);
+        emit_enc(&mut cx, &za, Some((NetworkType::Main, vec![(5, vec![9; 10])])), &mut strings);
+    }
+
+    // strings to parse: the valid ones, unified strings of all three kinds, and near-valid ones
+    let mut inputs: Vec<String> = vec![];
+    for s in &strings {
+        inputs.push(s.clone());
+        match r.below(12) {
+            0 => inputs.push(format!("  {}\n", s)),
+            1 => inputs.push(format!("\u{2003}{}\u{a0}\t", s)),
+            2 => inputs.push(s.to_ascii_uppercase()),
+            3 | 4 | 5 => inputs.push(mutate_char(&mut r, s)),
+            6 => {
+                let m = mutate_char(&mut r, s);
+                inputs.push(mutate_char(&mut r, &m));
+            }
+            _ => {}
+        }
+    }
+    for (_, s) in dec_inputs.iter().take(50 * scale) {
+        inputs.push(s.clone());
+    }
+    // unified address strings that violate one rule (the tail of dec_inputs holds the raw variants)
+    for (_, s) in dec_inputs.iter().rev().filter(|(k, _)| *k == K::Addr).take(110 * scale) {
+        inputs.push(s.clone());
+    }
+    // Bech32 / Bech32m with wrong variant, wrong HRP, wrong payload length, bad padding
+    for _ in 0..(60 * scale) {
+        let n = *r.pick(&NETS);
+        let (hs, ht) = match n {
+            NetworkType::Main => ("zs", "tex"),
+            NetworkType::Test => ("ztestsapling", "textest"),
+            NetworkType::Regtest => ("zregtestsapling", "texregtest"),
+        };
+        let l43 = *r.pick(&[43usize, 43, 43, 42, 44, 0, 20, 64]);
+        let l20 = *r.pick(&[20usize, 20, 20, 19, 21, 0, 43]);
+        let d43 = r.bytes(l43);
+        let d20 = r.bytes(l20);
+        let mut f43 = to_fes(&d43);
+        let mut f20 = to_fes(&d20);
+        match r.below(8) {
+            0 => {
+                inputs.push(bech32_string::<Bech32m>(hs, &f43)); // wrong variant for Sapling
+                inputs.push(bech32_string::<Bech32>(ht, &f20)); // wrong variant for TEX
+            }
+            1 => {
+                inputs.push(bech32_string::<Bech32>(*r.pick(&["zs1", "zx", "bc", "ZS", "zviews", "u"]), &f43));
+                inputs.push(bech32_string::<Bech32m>(*r.pick(&["te", "texx", "bc", "uview", "uivktest"]), &f20));
+            }
+            2 => {
+                // non-zero padding bits
+                if let Some(l) = f43.last_mut() {
+                    let pb = (to_fes(&d43).len() * 5) % 8;
+                    if pb > 0 {
+                        *l = fe(l.to_u8() as u64 | (1 << r.below(pb as u64)));
+                    }
+                }
+                inputs.push(bech32_string::<Bech32>(hs, &f43));
+                f20.push(fe(r.below(32)));
+                inputs.push(bech32_string::<Bech32m>(ht, &f20)); // whole extra character
+            }
+            3 => {
+                f43.push(fe(r.below(32)));
+                inputs.push(bech32_string::<Bech32>(hs, &f43));
+                f20.push(fe(0));
+                f20.push(fe(0));
+                inputs.push(bech32_string::<Bech32m>(ht, &f20));
+            }
+            _ => {
+                inputs.push(bech32_string::<Bech32>(hs, &f43));
+                inputs.push(bech32_string::<Bech32m>(ht, &f20));
+            }
+        }
+    }
+    // TEX payload followed by one surplus all-zero character (exactly five zero padding bits)
+    for (n, ht) in [("Main", "tex"), ("Test", "textest"), ("Regtest", "texregtest")] {
+        for _ in 0..3 {
+            let mut f = to_fes(&r.bytes(20));
+            f.push(fe(0));
+            inputs.push(bech32_string::<Bech32m>(ht, &f));
+        }
+        let _ = n;
+    }
+    // long Bech32m strings around the 1023 code length with a TEX prefix
+    for l in [620usize, 630, 635, 636, 637, 640] {
+        inputs.push(bech32_string::<Bech32m>("tex", &to_fes(&r.bytes(l))));
+    }
+    // Base58Check: wrong length, unknown prefix, bad checksum, too short
+    for _ in 0..(40 * scale) {
+        let prefix: [u8; 2] = *r.pick(&[[0x16, 0x9a], [0x1c, 0xb8], [0x1c, 0xbd], [0x16, 0xb6], [0x1d, 0x25], [0x1c, 0xba], [0x00, 0x00], [0x1c, 0xb9], [0x80, 0x01]]);
+        let l = *r.pick(&[20usize, 20, 64, 64, 19, 21, 63, 65, 0, 1, 32]);
+        let mut b = prefix.to_vec();
+        b.extend(r.bytes(l));
+        if r.chance(1, 6) {
+            b.truncate(r.below(3) as usize);
+        }
+        if r.chance(1, 5) {
+            b.insert(0, 0);
+        }
+        let s = bs58::encode(&b).with_check().into_string();
+        inputs.push(s.clone());
+        if r.chance(1, 4) {
+            inputs.push(bs58::encode(&b).into_string()); // no checksum
+        }
+        if r.chance(1, 4) {
+            inputs.push(mutate_char(&mut r, &s));
+        }
+    }
+    for s in ["", " ", "1", "11", "111111", "u1", "zs1", "tex1", "1qqqqqq", "u1qqqqqq", "\u{3000}", "u1\u{e9}qqqqqq", "t1", "zc", "3QJmnh", "é", "😀1qqqqqq", "z", "tex1qqqqqq", "TEX1QQQQQQ"] {
+        inputs.push(s.to_string());
+    }
+    for _ in 0..(60 * scale) {
+        let l = r.range(1, 90) as usize;
+        let alphabet: Vec<char> = match r.below(3) {
+            0 => "qpzry9x8gf2tvdw0s3jn54khce6mua7l1".chars().collect(),
+            1 => "123456789ABCDEFGHJKLMNPQRSTUVWXYZabcdefghijkmnopqrstuvwxyz".chars().collect(),
+            _ => (' '..='~').collect(),
+        };
+        inputs.push((0..l).map(|_| *r.pick(&alphabet)).collect());
+    }
+    for s in &inputs {
+        emit_parse(&mut cx, s);
+    }
+
+    stat(format!(
+        "{{\"cases\":{},\"by_op\":{:?},\"jumble_length_classes\":{:?},\"parse_ok\":{},\"parse_err\":{},\"tier\":\"{}\",\"seed\":{}}}",
+        cx.n, cx.classes, jl, cx.ok_parse, cx.err_parse, a.tier, a.seed
+    ).replace("{\"", "{\"").replace("\": ", "\":"));
 }
